@@ -190,7 +190,7 @@ Qed.
 
 (* ------------------------------------------------------------------ LagrangeBasisRestrictedModified (inside the support) *)
 Theorem rlm_is_poly p knots idx a b level x :
-  rl_in_support knots idx x = true ->
+  rlm_in_support knots idx a b level x = true ->
   rlm_eval p knots idx a b level x = peval (rlm_poly p knots idx a b level) x
   /\ rlm_d1 p knots idx a b level x = peval (pderiv (rlm_poly p knots idx a b level)) x
   /\ rlm_d2 p knots idx a b level x = peval (pderiv (pderiv (rlm_poly p knots idx a b level))) x.
@@ -207,7 +207,7 @@ Qed.
 
 (* outside the support the modified restricted basis and its derivatives vanish *)
 Theorem rlm_outside p knots idx a b level x :
-  rl_in_support knots idx x = false ->
+  rlm_in_support knots idx a b level x = false ->
   rlm_eval p knots idx a b level x = 0 /\ rlm_d1 p knots idx a b level x = 0 /\ rlm_d2 p knots idx a b level x = 0.
 Proof. intro Hs. unfold rlm_eval, rlm_d1, rlm_d2, rlm_obs. rewrite Hs. repeat split. Qed.
 
@@ -217,7 +217,7 @@ Definition piece_hyp (bf : basis) (j : nat) (x : Qc) : Prop :=
   match bf with
   | BLag _ _ => True
   | BRLag knots idx => rl_in_support knots idx x = true
-  | BRLagMod _ knots idx _ _ _ => rl_in_support knots idx x = true
+  | BRLagMod _ knots idx a b level => rlm_in_support knots idx a b level x = true
   | BBsp p knots k => in_piece knots j x /\ (k + p + 1 < length knots)%nat
   | BNak p idx level knots => nak_hyp p idx level knots j x
   | BNakMod p idx level knots _ _ =>
@@ -277,7 +277,8 @@ Definition basis_knots (bf : basis) : list Qc :=
 
 Lemma basis_wf_sound bf j x :
   basis_wf bf = true ->
-  match bf with BRLag knots idx | BRLagMod _ knots idx _ _ _ => rl_in_support knots idx x = true | _ => True end ->
+  match bf with BRLag knots idx => rl_in_support knots idx x = true
+              | BRLagMod _ knots idx a b level => rlm_in_support knots idx a b level x = true | _ => True end ->
   in_piece (basis_knots bf) j x \/ (match bf with BBsp _ _ _ => False | BNak p _ l _ | BNakMod p _ l _ _ _ => nak_is_lagrange p l = true | _ => True end) ->
   piece_hyp bf j x.
 Proof.
